@@ -121,7 +121,7 @@ struct QRun {
                 e.text = text;
                 // (for parser-generated texts only the header is known, not the exact stored extent: never mandatory)
                 // (a push from inside the write callback may find the text of the entry being reported still in the heap)
-                if (was_empty && !contains && !nested && text.size() + 1 <= (size_t) w.cfg.heap) e.must_text = true;
+                if (was_empty && !contains && !nested && !w.cfg.no_heap && text.size() + 1 <= (size_t) w.cfg.heap) e.must_text = true;
             }
 #else
             if (!alloc_failed) {
@@ -274,6 +274,10 @@ void execute_queue(const Plan &plan, Verdict &v, Mode mode) {
     WorldCfg cfg;
     cfg.queue = (int) clampl(plan.k("queue", 4), 1, 32767);
     cfg.heap = (int) clampl(plan.k("heap", 64), 2, 700);
+#if SIM_HEAP
+    cfg.no_heap = (int) clampl(plan.k("no_heap", 0), 0, 2);
+    if (cfg.no_heap) COUNT("deployment_without_text_heap");
+#endif
     cfg.inbuf = (int) clampl(plan.k("inbuf", 256), 48, 400);
     cfg.wr_mode = (int) (plan.k("wr_mode", 0) & 3);
     g_alloc = AllocCtl();
@@ -312,7 +316,8 @@ void execute_queue(const Plan &plan, Verdict &v, Mode mode) {
         int early_before = 0;
         w.err_observer = [&](World &ww, int code) {
             if (code == 0) {
-                if (refill_left <= 0 || v.violated) return;
+                // (a firmware push of code 0 also reports 0 through the callback: that is not the queue-empty notification)
+                if (refill_left <= 0 || v.violated || fw_push_active) return;
                 refill_left--;
                 // bring the reference FIFO to the point the library is at: the entry was taken / the queue cleared before the notification
                 UnitRec *u = ww.in_handler ? ww.unit() : nullptr;
@@ -495,6 +500,28 @@ void execute_queue(const Plan &plan, Verdict &v, Mode mode) {
                     }
                 }
                 run.check_count("after bulk op");
+            } else if (op.kind == "churn") {
+                // a controller that reads exactly one error per operation while the firmware raises one per operation: the queue
+                // never drains, for tens of thousands of pushes
+                long nrep = clampl(op.arg(0), 0, 70000);
+                for (long k = 0; k < nrep && !v.violated; k++) {
+                    int code = (int) (1 + (k % 30000));
+                    fw_push_active = true;
+                    SCPI_ErrorPush(w.ctx, (int16_t) code);
+                    fw_push_active = false;
+                    run.model_push(code, false, "", false);
+                    run.expect_echo = false;
+                    Entry m = run.model_pop();
+                    scpi_error_t e;
+                    SCPI_ErrorPop(w.ctx, &e);
+                    if (e.error_code != m.code)
+                        v.fail("fifo-order", fmt("via=churn have=%d want=%d", e.error_code, m.code), fmt("operation %ld of a push/pop churn returned %d, reference FIFO says %d", k, e.error_code, m.code));
+#if SIM_HAS_INFO
+                    w.free_info(e.device_dependent_info);
+#endif
+                }
+                if (nrep >= 65536) COUNT("probe_more_than_65536_pushes_without_drain");
+                run.check_count("after churn");
             } else if (op.kind == "pop") {
                 Entry m = run.model_pop();
                 int code;
@@ -603,8 +630,9 @@ std::string gen_text(Rng &r, long idx, long maxlen, bool quotes) {
 
 int gen_code(Rng &r) {
     static const int listed[] = {-100, -101, -102, -103, -104, -108, -109, -113, -131, -138, -151, -170, -200, -224, -310, -350, -363, -400, -500, -800};
-    switch (r.below(4)) {
+    switch (r.below(5)) {
         case 0: return listed[r.below(sizeof listed / sizeof listed[0])];
+        case 4: return DESCS[r.below(sizeof DESCS / sizeof DESCS[0])].code;   // any code that has a description, wherever it stands in the list
         case 1: return (int) r.range(1, 300);
         case 2: return -(int) r.range(100, 900);
         default: return (int) (int16_t) r.below(65536);
@@ -657,7 +685,19 @@ void generate_queue(Rng &r, const GenOpts &g, Plan &p, Mode mode) {
         p.ops.push_back(Op("count"));
         return;
     }
+    if (mode == M_C10 && r.chance(1, 600)) {
+        // a permanent backlog: capacity 3..40 (mostly not a power of two), a few entries pending, then 65536+ push/pop pairs
+        long cap = r.range(3, 40);
+        p.knob["queue"] = cap;
+        long pending = r.range(1, cap - 1);
+        for (long i = 0; i < pending; i++) p.ops.push_back(Op("push", {-(long) r.range(100, 300), 0, 0}));
+        p.ops.push_back(Op("churn", {r.chance(2, 3) ? r.range(65530, 66200) : r.range(1000, 70000)}));
+        p.ops.push_back(Op("push", {-222, 0, 0}, "after"));
+        p.ops.push_back(Op("count"));
+        return;
+    }
     p.knob["queue"] = r.chance(1, 2) ? r.range(1, 3) : r.range(1, 6);
+    if (heap && r.chance(1, 25)) p.knob["no_heap"] = r.range(1, 2);
     if (heap) {
         p.knob["heap"] = mode == M_C18 ? (r.chance(1, 2) ? 600 : r.range(16, 300)) : (r.chance(1, 8) ? 600 : (r.chance(1, 2) ? r.range(2, 12) : r.range(2, 64)));
     }
@@ -775,7 +815,7 @@ const Property C10 = {
     gen_c10,
     exec_c10,
     {"probe_ring_wrapped", "probe_overflow_text_in_victim_and_newcomer", "probe_clear_with_texts_pending", "probe_alloc_failed_at_capacity",
-     "probe_pop_to_empty", "probe_pop_on_empty", "fault_queue_overflow", "fault_alloc_failed_fw_push", "fault_alloc_failed_parser_push", "probe_overflow_on_huge_queue"},
+     "probe_pop_to_empty", "probe_pop_on_empty", "fault_queue_overflow", "fault_alloc_failed_fw_push", "fault_alloc_failed_parser_push", "probe_overflow_on_huge_queue", "probe_more_than_65536_pushes_without_drain"},
     "seeded histories of 1..1500 (thorough: ..10000) operations {SCPI_ErrorPush[Ex] with unique texts / explicit or automatic length, SCPI_ErrorPop + "
     "release, SCPI_ErrorClear, SCPI_ErrorCount, controller messages with SYST:ERR?, SYST:ERR:COUN?, *CLS and undefined headers} on queues of capacity "
     "1..6, allocation failures injected through the wrapped strndup per push; reference FIFO + allocation ledger compared after every operation. "
